@@ -24,7 +24,10 @@ NA = ('eigen_sym33_non_unit / eigen_sym33_unit on general symmetric tensors (rat
       'data-dependent switches): replaced by their contract in O5/O6; the real routine is decided only on the low-dimensional families of O7',
       'pow_symm / _pow_relative_difference ACCURACY near repeated eigenvalues (their real-arithmetic identities are in O4 / O5b.rule_pow)', 'right_polar_decomposition',
       'LinAlg.sqrtm / logm_iss / log_pade_pf and the convergence of sqrtm_dbp (only its one-step rule and the scalar case are decided: O9)',
-      'equivalence of a single compiled call and vmap/jit batches (JAX transformation semantics are part of the trusted base)',
+      'equivalence of a single compiled call and vmap/jit batches (JAX transformation semantics are part of the trusted base; over IEEE values '
+      'they are NOT equivalent: jit(vmap(eigen_sym33_unit)) with a batch >= 2 returns non-orthogonal eigenvectors for a numerically double '
+      'eigenvalue in general orientation because XLA recomputes a noise-level intermediate — DESIGN 10.3, observations/c12_jit_vmap_double_eigenvalue.py; '
+      'no query here can see that)',
       'rounding error of the evaluation (all values are mathematical reals)')
 
 
